@@ -7,3 +7,4 @@ import TFV.Properties.Split
 #print axioms TFV.Split.C16_split
 #print axioms TFV.Split.C16_normJobs
 #print axioms TFV.Split.C16_rowwise
+#print axioms TFV.Split.C16_getFitness
